@@ -19,6 +19,9 @@ var GoogleFontsMapping = map[string]string{
 	"Montserrat": "https://fonts.googleapis.com/css?family=Montserrat:300,400,500,700",
 }
 
+// googleFontNames lists the keys of GoogleFontsMapping in lookup order.
+var googleFontNames = []string{"Ubuntu", "Open Sans", "Roboto", "Lato", "Montserrat"}
+
 // DetectDefaultFonts checks if components use default fonts that need importing
 // This handles MJML's behavior of importing fonts based on component defaults, not just rendered text
 func DetectDefaultFonts(hasTextComponents, hasSocialComponents, hasButtonComponents bool) []string {
@@ -41,11 +44,12 @@ func GetGoogleFontURL(fontFamily string) string {
 	// Clean up the font family string - remove quotes and extra whitespace
 	fontFamily = strings.Trim(fontFamily, `"' `)
 
-	// Check each Google Font mapping
-	for fontName, url := range GoogleFontsMapping {
+	// Check each Google Font mapping in a fixed order so the result does not
+	// depend on map iteration order when several names match.
+	for _, fontName := range googleFontNames {
 		// Case-insensitive check and see if the font family contains this font name
 		if strings.Contains(strings.ToLower(fontFamily), strings.ToLower(fontName)) {
-			return url
+			return GoogleFontsMapping[fontName]
 		}
 	}
 
